@@ -77,6 +77,9 @@ C12pv(i) == (Tr[i].op = "stream" /\ Ok(i)) =>
                   \E p \in Tr[i].pv : /\ p.name = o.name
                                       /\ {e.eid : e \in p.evs} = {s.eid : s \in o.spans}
                                       /\ \A e \in p.evs : e.job = o.job /\ e.jname = o.name
+\* the stream (and the sequencing of what it yields) does not die: a run that got through cleaning and selection ends normally
+C12completes(i) == (Tr[i].op = "end" /\ i > 1 /\ Tr[i - 1].op \in {"clean3", "ug"} /\ Tr[i - 1].post.status = "ok") =>
+                      Tr[i].post.status = "ok"
 \* C15: every run completes; any two runs give the same PV sequence for every trace both of them output; all
 \* unique-graph runs on the ingested store select the same shape classes
 WinOk(i) == MinEff(i) + Buf + Buf < MaxEff(i)
@@ -95,10 +98,11 @@ Clause(c, i) == CASE c = "C10crash" -> C10crash(i) [] c = "C10unique" -> C10uniq
                   [] c = "C11frame" -> C11frame(i) [] c = "C11twin" -> C11twin(i)
                   [] c = "C09exact" -> C09exact(i)
                   [] c = "C12once" -> C12once(i) [] c = "C12exact" -> C12exact(i) [] c = "C12pv" -> C12pv(i)
+                  [] c = "C12completes" -> C12completes(i)
                   [] c = "C15completes" -> C15completes(i) [] c = "C15same" -> C15same(i)
                   [] c = "C15classes" -> C15classes(i)
 Clauses == {"C10crash", "C10unique", "C10exact", "C11incons", "C11window", "C11names", "C11frame", "C11twin", "C09exact",
-            "C12once", "C12exact", "C12pv", "C15completes", "C15same", "C15classes"}
+            "C12once", "C12exact", "C12pv", "C12completes", "C15completes", "C15same", "C15classes"}
 
 (* ---------------- reporting (always TRUE) ---------------- *)
 Report == /\ (l > 1) => \A c \in Clauses : Clause(c, l - 1) \/ PrintT(<<"BAD", tid, c, l - 1>>)
